@@ -81,7 +81,8 @@ pub fn run(o: &Opts) -> Report {
     let mut rep = Report::new(
         "C13",
         "ops on raw f64 bit patterns: exhaustive boundary set x arities 0..5 for try_from_floats, boundary^k for new_*, \
-         all evidence-number entry points, plus random bit patterns; distinct = distinct (op, bits) tuples; \
+         all evidence-number entry points, plus random bit patterns; values built directly through the enum variants \
+         (any f64 incl. NaN, infinities, negatives) x every accessor and alias vs the stored bits; distinct = distinct (op, bits) tuples; \
          non-trivial = every case (each exercises the range test or an accessor)",
     );
     let mut rng = Rng::new(o.seed);
